@@ -42,6 +42,12 @@ def run(tier, seed, res, lean):
         res.violations.append(Violation(
             'c03-correspondence', 'the call logs of vm.py and of CM.Model.VM differ (as multisets); theorems C03.* no longer tied to the code',
             {'suite': 'S-VM', 'theorems': list(lean['theorems']), **bad[0]}, found_input=False))
+    # None / falsy values behind every kind of cache layer: the second identical call executes nothing upstream
+    from .. import suite_cache
+    fc_calls, fc_bad = suite_cache.run_falsy_cached(seed)
+    for b in fc_bad[:3]:
+        res.violations.append(Violation('c03-falsy-value-not-a-hit', b['msg'][:400], {'suite': 'S-CACHE/falsy', **b}))
+    res.coverage['falsy_cached_calls'] = fc_calls
     # Instance access `pipeline(id)[names]`: one request is one call of one compiled function
     from .. import suite_compile
     for p in [p for i in range(6 if tier == 'quick' else 40) for p in suite_compile.run_instance_requests(seed * 83 + i)][:3]:
